@@ -64,7 +64,7 @@ def make_rdf(wf, lang, order=None):
     return WorkflowGraph(lang, workflow=g)
 
 
-def gen_workflow(rng, lang, spec, opdecls, max_apps=5):
+def gen_workflow(rng, lang, spec, opdecls, max_apps=5, p_ann=0.25):
     """acyclic workflow with shared sources / shared intermediate results whose composition type-checks (by trial)"""
     from transforge import expr as E
     nsrc = rng.randint(1, 3)
@@ -72,8 +72,9 @@ def gen_workflow(rng, lang, spec, opdecls, max_apps=5):
     apps = []
     produced = []          # (name, expr) of tool outputs so far
     unused = []
-    napps = rng.randint(1, max_apps)
+    napps = min(max_apps, rng.choice([1, 2, 2, 3, 3, 3, 4, 4, 5]))
     exprs = {}
+    built = []
     for s in sources:
         exprs[s] = None
     leaves_ops = [n for n, _ in opdecls]
@@ -90,7 +91,7 @@ def gen_workflow(rng, lang, spec, opdecls, max_apps=5):
             while len(ins) < k:
                 ins.append(rng.choice(pool))
             rng.shuffle(ins)
-            text = gen_tool_text(rng, spec, leaves_ops, len(ins))
+            text = gen_tool_text(rng, spec, leaves_ops, len(ins), p_ann)
             try:
                 input_exprs = [exprs[x] if exprs[x] is not None else E.Source() for x in ins]
                 e = lang.parse_expr(text, *input_exprs)
@@ -101,6 +102,7 @@ def gen_workflow(rng, lang, spec, opdecls, max_apps=5):
         if ok is None:
             break
         out, text, ins, e = ok
+        built.append(ok)
         apps.append((out, text, ins))
         exprs[out] = e
         produced.append((out, e))
@@ -115,14 +117,22 @@ def gen_workflow(rng, lang, spec, opdecls, max_apps=5):
     sources = [s for s in sources if s in consumed]       # a declared but unused source is not part of any tool's flow
     if not sources:
         return None
+    # a workflow source whose type is, or contains, or is later given, a function type (a polymorphic operator over-applied through it) is outside
+    # what is generated: the type object of such a source is shared by the tools that use it and normalised in place
+    from transforge import type as T
+    for _, _, _, e in built:
+        for leaf in e.leaves():
+            if isinstance(leaf, E.Source):
+                if any(isinstance(u, T.TypeOperation) and u.operator == T.Function for u in leaf.type.follow()):
+                    return None
     return {"sources": sources, "apps": apps}
 
 
-def gen_tool_text(rng, spec, opnames, ninputs):
+def gen_tool_text(rng, spec, opnames, ninputs, p_ann=0.25):
     """a small expression over the numbered inputs, some annotated"""
     def leaf(k):
         s = str(k)
-        if rng.random() < 0.25:
+        if rng.random() < p_ann:
             t = G.gen_ty(rng, spec, rng.randint(0, 1), p_special=0.0, allow_fun=False)
             s = f"({k} : {G.ty_text(t, spec)})"
         return s
